@@ -1,0 +1,88 @@
+//! Verification hooks. Only compiled with `--cfg killingspark_zstd_rs_verif`; never part of a normal build.
+//!
+//! A thread-local event sink that the instrumented code appends to when the matching bit of the
+//! mask is set, plus re-exports / pass-through wrappers for crate-private items that an external
+//! conformance harness needs to drive directly. Nothing in here changes the behaviour of the crate.
+extern crate std;
+
+use std::cell::{Cell, RefCell};
+use std::vec::Vec;
+
+/// One recorded event: a kind, up to ten scalar arguments (meaning depends on the kind) and optional bytes.
+#[derive(Clone, Debug)]
+pub struct Event {
+    pub kind: &'static str,
+    pub args: [u64; 10],
+    pub nargs: u8,
+    pub bytes: Vec<u8>,
+}
+
+/// Ring buffer operations (name, operands, base address, cap, head, tail after the operation)
+pub const RING: u32 = 1;
+/// Raw copies of `copy_bytes_overshooting` (addresses, eligible lengths, wanted and touched bytes)
+pub const COPY: u32 = 2;
+/// Decoder events on frame / block level
+pub const DEC: u32 = 4;
+/// Decoder events per sequence
+pub const SEQ: u32 = 8;
+/// Encoder events on block level
+pub const ENC: u32 = 16;
+/// Entropy table events (encoder and decoder)
+pub const TAB: u32 = 32;
+
+std::thread_local! {
+    static MASK: Cell<u32> = const { Cell::new(0) };
+    static EVENTS: RefCell<Vec<Event>> = const { RefCell::new(Vec::new()) };
+}
+
+/// Select which event classes are recorded on this thread (0 = none, the default).
+pub fn set_mask(mask: u32) {
+    MASK.with(|m| m.set(mask));
+}
+
+#[inline]
+pub fn enabled(bit: u32) -> bool {
+    MASK.with(|m| m.get() & bit != 0)
+}
+
+#[inline]
+pub fn emit(bit: u32, kind: &'static str, args: &[u64]) {
+    if enabled(bit) {
+        emit_slow(kind, args, &[]);
+    }
+}
+
+#[inline]
+pub fn emit_bytes(bit: u32, kind: &'static str, args: &[u64], bytes: &[u8]) {
+    if enabled(bit) {
+        emit_slow(kind, args, bytes);
+    }
+}
+
+#[cold]
+fn emit_slow(kind: &'static str, args: &[u64], bytes: &[u8]) {
+    let mut a = [0u64; 10];
+    let n = args.len().min(10);
+    a[..n].copy_from_slice(&args[..n]);
+    EVENTS.with(|e| {
+        e.borrow_mut().push(Event {
+            kind,
+            args: a,
+            nargs: n as u8,
+            bytes: bytes.to_vec(),
+        })
+    });
+}
+
+/// Remove and return everything recorded so far on this thread.
+pub fn take() -> Vec<Event> {
+    EVENTS.with(|e| core::mem::take(&mut *e.borrow_mut()))
+}
+
+/// Number of events currently buffered on this thread.
+pub fn pending() -> usize {
+    EVENTS.with(|e| e.borrow().len())
+}
+
+pub use crate::decoding::VerifDecodeBuffer as DecodeBuffer;
+pub use crate::decoding::VerifRingBuffer as RingBuffer;
